@@ -305,6 +305,22 @@ func runUnguardedRules(p *Program, id string) ([]*Gen, []string) {
 							}
 						}
 					}
+					// required provenance of a stored value
+					if vp := kv["valuepath"]; vp != "" {
+						if st, isStore := in.(*ssa.Store); isStore {
+							got := valuePath(st.Val)
+							okAny := false
+							for _, alt := range splitList(vp, "|") {
+								if pathMatches(got, alt) {
+									okAny = true
+								}
+							}
+							if !okAny {
+								o.Pre = "sat"
+								o.Model = "the stored value is " + got + ", expected one of " + vp
+							}
+						}
+					}
 					// required argument provenance
 					for _, ap := range splitList(kv["argpath"], "|") {
 						parts := strings.SplitN(ap, ":", 2)
